@@ -356,6 +356,7 @@ SP_INPUT = '''from typing import Literal, Optional
 class Source(object):
     """ source class """
 
+    base_{cattr} = 0
     {cattr}: {ctyp} = {cdef}
     unrelated_attr: int = 7
 
@@ -446,7 +447,8 @@ def sp_op(proj, ch, lab, _files):
     # a second evaluable name that only some versions of the input module define
     with_extra = ch.chance(lab + ".extra", 0.5)
     choices_val = tch.choice("choicesval", ["('p', 'q', 'r')", "('p', 'q', 'r')", "(0, 1, False, True)", "[1, 1.0, 2]", "('a', 'a', 'b')", "(2, 3, 5)"])
-    consts = "%s = %s\n%smodule_attr: %s = %s" % (evalname, choices_val, "EXTRA = ('u', 'v')\n" if with_extra else "", ctyp, cdef)
+    # (plain assignments whose names contain the names of addressable properties come first: max_module_attr, base_<attr>)
+    consts = "%s = %s\n%smax_module_attr = 3\nmodule_attr: %s = %s" % (evalname, choices_val, "EXTRA = ('u', 'v')\n" if with_extra else "", ctyp, cdef)
     inp = SP_INPUT.format(consts=consts, cattr=cattr, ctyp=ctyp, cdef=cdef, marg=marg, mtyp=mtyp, mdef=mdef, farg=farg, ftyp=ftyp,
                           kwarg=kwarg, kwtyp=kwtyp, kwdef=kwdef)
     # whether the leading positional parameters have defaults decides how the defaults list lines up with the arguments
